@@ -11,8 +11,8 @@ variable {S Pkt Out : Type}
 /-- **Accounting at quiescence**, for every schedule: once every dispatch call has returned and the
 queues are drained, the statistics agree with the outcomes the calls returned
 (`dispatched` = #Queued, plus #Dropped-on-full for the pools that count attempts; `dropped` = #Dropped;
-per-worker `dropped` = #Dropped-on-full at that worker, plus that worker's processing errors for
-the pool that counts them), every packet reported Queued has been analysed exactly once, by the
+per-worker `dropped` = #Dropped-on-full at that worker, plus that worker's processing errors for a
+pool that counts them — none of the three does, see `worker_dropped_exact` and `accounting_http`), every packet reported Queued has been analysed exactly once, by the
 worker it was routed to, in dispatch order — and nothing else has been analysed. -/
 theorem accounting (C : Cfg Pkt) (W : Worker S Pkt Out) (sched : List (Step Pkt))
     (s : State S Pkt Out) (hs : s = run C W (init W) sched) (hq : Quiescent C s) :
@@ -35,6 +35,52 @@ theorem accounting (C : Cfg Pkt) (W : Worker S Pkt Out) (sched : List (Step Pkt)
           hproc, fun w => ?_⟩
   rw [← hproc w]
   exact (iw w).1
+
+/-- **Per-worker drops are exactly the queue-full drops**, for every pool that does not count
+processing errors (all three since fixes/C18-http-worker-error-not-a-drop.patch): at quiescence
+`workers[w].dropped` = the number of `Dropped` outcomes dispatch returned for a full queue of `w`,
+however many queued packets failed analysis at `w`. -/
+theorem worker_dropped_exact (C : Cfg Pkt) (W : Worker S Pkt Out) (sched : List (Step Pkt))
+    (hC : C.errCountsWorkerDropped = false)
+    (s : State S Pkt Out) (hs : s = run C W (init W) sched) (hq : Quiescent C s) (w : Nat) :
+    s.wdropped w = nFullAt s w := by
+  have := (accounting C W sched s hs hq).2.2.1 w
+  simpa [hC] using this
+
+/-- The statement of the property for the three pools as they are: the statistics are functions of
+the outcomes the dispatch calls returned. -/
+theorem accounting_http (n qcap : Nat) (route : Pkt → Nat) (W : Worker S Pkt Out) (sched : List (Step Pkt))
+    (s : State S Pkt Out) (hs : s = run (httpPool n qcap route) W (init W) sched)
+    (hq : Quiescent (httpPool n qcap route) s) :
+    s.dispatched = nQueued s + nFull s ∧ s.dropped = nFull s ∧ (∀ w, s.wdropped w = nFullAt s w) ∧
+    (∀ w, s.processed w = queuedAt s w) := by
+  obtain ⟨a, b, _, d, _⟩ := accounting (httpPool n qcap route) W sched s hs hq
+  have hu : nUnroutable s = 0 := by
+    subst hs
+    unfold nUnroutable
+    rw [List.countP_eq_zero]
+    intro x hx
+    have := invRoute_reachable (httpPool n qcap route) W sched x hx
+    cases hx2 : x.2 <;> simp_all [httpPool]
+  refine ⟨by simpa [httpPool] using a, by omega, ?_, d⟩
+  intro w
+  exact worker_dropped_exact _ W sched rfl s hs hq w
+
+theorem accounting_tcp (n qcap : Nat) (route : Pkt → Nat) (W : Worker S Pkt Out) (sched : List (Step Pkt))
+    (s : State S Pkt Out) (hs : s = run (tcpPool n qcap route) W (init W) sched)
+    (hq : Quiescent (tcpPool n qcap route) s) :
+    s.dispatched = nQueued s ∧ s.dropped = nFull s + nUnroutable s ∧ (∀ w, s.wdropped w = nFullAt s w) ∧
+    (∀ w, s.processed w = queuedAt s w) := by
+  obtain ⟨a, b, _, d, _⟩ := accounting (tcpPool n qcap route) W sched s hs hq
+  exact ⟨by simpa [tcpPool] using a, b, fun w => worker_dropped_exact _ W sched rfl s hs hq w, d⟩
+
+theorem accounting_tls (n qcap : Nat) (route : Pkt → Option Nat) (W : Worker S Pkt Out)
+    (sched : List (Step Pkt)) (s : State S Pkt Out) (hs : s = run (tlsPool n qcap route) W (init W) sched)
+    (hq : Quiescent (tlsPool n qcap route) s) :
+    s.dispatched = nQueued s + nFull s ∧ s.dropped = nFull s + nUnroutable s ∧
+    (∀ w, s.wdropped w = nFullAt s w) ∧ (∀ w, s.processed w = queuedAt s w) := by
+  obtain ⟨a, b, _, d, _⟩ := accounting (tlsPool n qcap route) W sched s hs hq
+  exact ⟨by simpa [tlsPool] using a, b, fun w => worker_dropped_exact _ W sched rfl s hs hq w, d⟩
 
 /-- **Safety at every moment** (not only at quiescence): what a worker has analysed so far is a
 prefix of what was reported Queued for it; a Dropped packet is never analysed; the counters never
@@ -81,5 +127,32 @@ example : Quiescent demoCfg (run demoCfg demoW (init demoW) demoSched) := by
 example : (run demoCfg demoW (init demoW) demoSched).dispatched = 3 ∧
     (run demoCfg demoW (init demoW) demoSched).dropped = 1 ∧
     (run demoCfg demoW (init demoW) demoSched).results = [(1, 1, 1), (0, 2, 2)] := by decide
+
+/-! ### regression of the former finding KF.C18.httpWorkerErrCountedDropped: an HTTP pool, one worker,
+queue size 1; packet 7 makes the worker fail (a non-TCP frame), packet 9 is refused by the full queue -/
+
+def errW : Worker Nat Nat Nat := { init := 0, step := fun s p => (s + 1, if p = 7 then none else some p) }
+def errCfg : Cfg Nat := httpPool 1 1 (fun _ => 0)
+def errSched : List (Step Nat) :=
+  [.dispatch 7, .dispatch 9, .incD, .incD, .incX, .incW 0, .work 0, .dispatch 4, .incD, .work 0]
+
+example : Quiescent errCfg (run errCfg errW (init errW) errSched) := by
+  refine ⟨by decide, by decide, fun w => ?_, fun w => ?_⟩
+  · by_cases h0 : w = 0
+    · subst h0; decide
+    · simp [run, step, errSched, errCfg, httpPool, errW, init, upd, h0]
+  · by_cases h0 : w = 0
+    · subst h0; decide
+    · simp [run, step, errSched, errCfg, httpPool, errW, init, upd, h0]
+
+/-- worker 0 had one processing error (packet 7) and one queue-full drop (packet 9): its `dropped`
+statistic is 1, the number of `Dropped` outcomes — the unrepaired HTTP worker reported 2. -/
+example : (run errCfg errW (init errW) errSched).werrs 0 = 1 ∧
+    (run errCfg errW (init errW) errSched).wdropped 0 = 1 ∧
+    nFullAt (run errCfg errW (init errW) errSched) 0 = 1 ∧
+    (run errCfg errW (init errW) errSched).dispatched = 3 ∧
+    (run errCfg errW (init errW) errSched).dropped = 1 ∧
+    (run errCfg errW (init errW) errSched).results = [(0, 4, 4)] ∧
+    (run { errCfg with errCountsWorkerDropped := true } errW (init errW) errSched).wdropped 0 = 2 := by decide
 
 end Huginn.Props.C18Pool
